@@ -12,7 +12,7 @@ func (ra *RequestAdaptor) reload()
   modifies ra.pa
 
 func (ra *RequestAdaptor) Init()
-  flag frame=unchecked
+  modifies allof("filters/requestadaptor.RequestAdaptor.pa")
   requires ra != nil && ra.spec != nil
 
 // ---- C03: a request body the adaptor compresses or decompresses before the proxy forwards it ----
